@@ -23,7 +23,7 @@ ID = "C16"
 LEVEL = "exploration"
 RULE = ("Hypothesis-generated classes of 1-5 parameters drawn from Integer, Number, String, Boolean, Tuple, NumericTuple, "
         "XYCoordinates, Range, Date, CalendarDate, List, Dict, Selector, ListSelector, ClassSelector with every combination of "
-        "bounds (none / one-sided / two-sided, incl. 0), inclusivity, length, item type, allowed objects and allow_None; valid "
+        "bounds (none / one-sided / two-sided, incl. 0; fractional limits on an Integer), inclusivity, String regexes given as text or compiled with flags, length, item type, allowed objects and allow_None; valid "
         "states built by construction (often exactly on an inclusive bound or next to an exclusive one), at class and instance "
         "level, optionally with bounds / objects / length overridden on the instance's own Parameter objects (state valid under the override only), GUI-only hints (softbounds, step), dict-declared and later-extended object lists; oracle = (1) Draft7Validator.check_schema on the generated schema + a whitelist of Draft-7 keywords and type "
         "names, (2) the serialized valid state validates, (3) for Number/Integer each numeric probe (bounds, float neighbours, "
@@ -103,7 +103,7 @@ def execute(case):
             if t in ("Integer", "Number") and cfg.get("bounds") is not None and cfg["bounds"][1] is not None:
                 hi = cfg["bounds"][1]
                 ip.bounds = (cfg["bounds"][0], hi + 10)
-                setattr(holder, n, hi + 5)
+                setattr(holder, n, (math.floor(hi) if t == "Integer" else hi) + 5)
                 cfg["bounds"] = (cfg["bounds"][0], hi + 10)       # the constraint now in force for this object
                 res.label("instance_level_bounds_override")
             elif t in ("Selector", "ListSelector") and cfg.get("objects"):
